@@ -62,6 +62,11 @@ func (c C19) Run(t *tape.Tape, opt core.RunOpt) (res core.Result) {
 	}
 	w.ResolverEvents = t.Bool(1, 2)
 	w.BadEvents = t.Bool(1, 2)
+	if t.Bool(1, 4) {
+		// a union-typed subscription field: the events are of two Go types
+		w.UnionEvents = true
+		w.ResolverEvents = false
+	}
 	topics := []string{"a", "b", "c"}
 	topic := func() string {
 		if t.Bool(1, 6) {
@@ -153,7 +158,7 @@ func (c C19) Run(t *tape.Tape, opt core.RunOpt) (res core.Result) {
 					if p[1] == "fail" {
 						failed = append(failed, sid)
 					}
-					want, rerr := workload.ExpectFor(w.Subs[sid].SelIndex, n, w.BadEvents && workload.BadEvent(n))
+					want, rerr := w.Expect(w.Subs[sid], n)
 					if rerr {
 						resolveErrs++
 					}
